@@ -1,14 +1,21 @@
 #!/bin/bash
-# run_all_benign.sh: every stored behaviour-preserving change against all 20 checks; writes seeded/BENIGN.md (expected: exit 0 everywhere;
-# exit 2 = the check could not decide the changed code and says so; exit 1 would be a false alarm)
+# run_all_benign.sh [parallelism]: every stored behaviour-preserving change against all 20 checks; writes seeded/BENIGN.md (expected: exit 0
+# everywhere; exit 2 = the check could not decide the changed code and says so; exit 1 would be a false alarm)
+par="${1:-2}"
 cd /verif
-out=seeded/BENIGN.md
-{ echo "# Behaviour-preserving changes vs all checks"; echo; echo "| change | what | checks not exiting 0 |"; echo "|---|---|---|"; } > $out
-for d in seeded/benign/*/; do
-  d=${d%/}
-  res=$(tools/run_benign.sh /verif/$d C01 C02 C03 C04 C05 C06 C07 C08 C09 C10 C11 C12 C13 C14 C15 C16 C17 C18 C19 C20 2>&1 | head -1)
-  bad=$(echo "$res" | grep -o "C[0-9][0-9] exit=[1-9][0-9]*" | tr '\n' ';')
+tmp=$(mktemp -d /tmp/benignall.XXXXXX)
+one() {
+  d="$1"; tmp="$2"
+  res=$(tools/run_benign.sh /verif/$d C01 C02 C03 C04 C05 C06 C07 C08 C09 C10 C11 C12 C13 C14 C15 C16 C17 C18 C19 C20 2>&1)
+  bad=$(echo "$res" | head -1 | grep -o "C[0-9][0-9] exit=[1-9][0-9]*" | tr '\n' ';')
+  why=$(echo "$res" | grep -E "^INCONCLUSIVE|^VIOLATION" | head -1 | cut -c1-160 | tr '|' '/')
   what=$(head -c 140 $d/what.txt | tr '\n|' '  ')
-  echo "| $d | $what | ${bad:-none} |" >> $out
+  echo "| $d | $what | ${bad:-none} ${why} |" > $tmp/$(basename $d)
   echo "$d: ${bad:-all 0}"
-done
+}
+export -f one
+ls -d seeded/benign/*/ | sed 's#/$##' | xargs -P $par -I{} bash -c "one {} $tmp"
+out=seeded/BENIGN.md
+{ echo "# Behaviour-preserving changes vs all checks"; echo; echo "| change | what | checks not exiting 0 (first reason) |"; echo "|---|---|---|"; cat $tmp/*; } > $out
+rm -rf $tmp
+echo "exit=1 lines: $(grep -c 'exit=1' $out)"
